@@ -205,6 +205,39 @@ class Program:
                 if ex: cands = ex
         return cands[0][2]
 
+    def bind_tparams(self, fn, targs):
+        """{type parameter name: written type argument} for a call `f::<A, B>(..)` of a generic function of the crates under
+        analysis; the parameter names are read from the function's source header"""
+        names = self.fn_generics(fn)
+        if not names or len(names) != len(targs): return None
+        out = {}
+        for n, t in zip(names, targs):
+            if re.fullmatch(r"[A-Z]\w*", n) and not re.fullmatch(r"[A-Z]\w?", t.strip()) and "{closure" not in t and not t.strip().startswith("impl "):
+                out[n] = t.strip()
+        return out or None
+
+    def fn_generics(self, fn):
+        cache = self.__dict__.setdefault("_fn_generics", {})
+        key = (fn.crate, fn.name)
+        if key in cache: return cache[key]
+        names = None
+        base = getattr(self, "base_dirs", {}).get(fn.crate) or (os.path.join(build.REPO, build.WORKSPACE[fn.crate]) if fn.crate in build.WORKSPACE else None)
+        last = fn.name.split("::")[-1]
+        if base and re.fullmatch(r"\w+", last):
+            src = self.__dict__.setdefault("_src_text", {})
+            if fn.crate not in src:
+                txt = []
+                for root, _, files in os.walk(os.path.join(base, "src")):
+                    for f in sorted(files):
+                        if f.endswith(".rs"): txt.append(rtypes.strip_comments(open(os.path.join(root, f)).read()))
+                src[fn.crate] = "\n".join(txt)
+            hits = re.findall(r"\bfn\s+" + re.escape(last) + r"\s*<([^()]*?)>\s*\(", src[fn.crate])
+            hits = [h for h in hits if h.count("<") == h.count(">")]
+            if len(hits) == 1:
+                names = [re.split(r"[:=\s]", g.strip())[0] for g in mirparse.split_top(hits[0]) if g.strip() and not g.strip().startswith("'") and not g.strip().startswith("const ")]
+        cache[key] = names
+        return names
+
     def closure_fn(self, loc):
         f = self.closures.get(loc)
         if f is None: raise Unsupported(f"closure body not found: {loc}")
